@@ -527,8 +527,10 @@ pub fn gen(prop: &str, rng: &mut Rng, quick: bool, st: &mut Stats) -> Option<Vec
                 arch.push(write_plain(if k == 0 { "sync" } else { "async" }, &ops.join(";")).expect("write"));
                 st.bump("archives_with_tiles_over_64KiB");
             }
-            for (_, bytes, _, valid) in odd_archives(rng) {
-                if valid {
+            for (name, bytes, _, valid) in odd_archives(rng) {
+                // (the re-addressing archive is not "valid" - ids are addressed twice - but what a lookup reads there is
+                // decided by the directory order alone, which the specification-level reader follows too)
+                if valid || name == "tile entry re-addressing an id of an earlier leaf" {
                     arch.push(bytes);
                 }
             }
@@ -538,6 +540,26 @@ pub fn gen(prop: &str, rng: &mut Rng, quick: bool, st: &mut Stats) -> Option<Vec
                 o.n = 12 + 9 * k;
                 o.icomp = [1u8, 2, 4, 3][k];
                 arch.push(gen_foreign(rng, &o, st).bytes);
+            }
+            // a tile entry behind a leaf pointer re-addresses ids of that leaf (and vice versa): directory order decides
+            for icomp in [1u8, 2] {
+                let t = |id: u64, run: u32, off: u64, len: u32| spec::SEntry { id, off, len, run };
+                let data: Vec<u8> = rng.bytes(200);
+                let lz = spec::codec_compress(icomp, &spec::encode_dir(&[t(0, 8, 0, 10), t(9, 1, 10, 7)]));
+                let re = [spec::SEntry { id: 0, off: 0, len: lz.len() as u32, run: 0 }, t(5, 1, 100, 8), t(9, 2, 120, 4), t(40, 1, 130, 3)];
+                let b = raw_archive(icomp, &re, &lz, &data);
+                for (k, (id, off, len)) in [(5u64, 100u64, 8u64), (4, 0, 10), (9, 120, 4), (10, 120, 4), (40, 130, 3), (0, 0, 10)].iter().enumerate() {
+                    c.push(format!("chk_order_lookup {} {} {id:x} {off:x} {len:x}", if k % 2 == 0 { "sync" } else { "async" }, hex_bytes(&b)));
+                }
+                // the other way round: the tile entry first, then a leaf that re-addresses its id
+                let re2 = [t(5, 1, 100, 8), spec::SEntry { id: 5, off: 0, len: lz.len() as u32, run: 0 }];
+                let lz2 = spec::codec_compress(icomp, &spec::encode_dir(&[t(5, 2, 30, 6), t(9, 1, 10, 7)]));
+                let re2 = [re2[0], spec::SEntry { len: lz2.len() as u32, ..re2[1] }];
+                let b2 = raw_archive(icomp, &re2, &lz2, &data);
+                for (k, (id, off, len)) in [(5u64, 30u64, 6u64), (6, 30, 6), (9, 10, 7)].iter().enumerate() {
+                    c.push(format!("chk_order_lookup {} {} {id:x} {off:x} {len:x}", if k % 2 == 0 { "async" } else { "sync" }, hex_bytes(&b2)));
+                }
+                st.bump("ids_addressed_twice_directory_order_decides");
             }
             // told lengths that are too short for what the directory holds (root window, leaf pointers), without a codec
             {
@@ -861,7 +883,14 @@ pub fn gen(prop: &str, rng: &mut Rng, quick: bool, st: &mut Stats) -> Option<Vec
             // other must make the same
             for (name, bytes, pts, _valid) in odd_archives(rng) {
                 let probes: Vec<String> = pts.iter().flat_map(|p| [format!("g:{p:x}"), format!("g:{:x}", p + 1)]).collect();
-                for rg in ["u_u", "i3_u", "u_e6"] {
+                let mut rgs: Vec<String> = vec!["u_u".into(), "i3_u".into(), "u_e6".into()];
+                for p in pts.iter().skip(1).take(5) {
+                    rgs.push(format!("i{p:x}_u"));
+                    rgs.push(format!("e{p:x}_u"));
+                    rgs.push(format!("u_i{p:x}"));
+                    rgs.push(format!("i{:x}_i{:x}", p + 1, p + 30));
+                }
+                for rg in rgs {
                     c.push(format!("chk_sa_hist o:X:{rg}:{};l;n;{}", hex_bytes(&bytes), probes.join(";")));
                 }
                 st.bump(&format!("odd_{}", name.replace(' ', "_")));
@@ -1082,6 +1111,10 @@ pub fn run_chk(toks: &[&str]) -> Option<String> {
         }
         ["chk_torn", mode, ops] => guard_chk(|| chk_torn(mode, ops)),
         ["chk_torn_giant", mode] => guard_chk(|| chk_torn_giant(mode)),
+        ["chk_order_lookup", mode, b, id, off, len] => {
+            let (b, id, off, len) = (unhex_bytes(b), unhex_u64(id), unhex_u64(off), unhex_u64(len));
+            guard_chk(|| chk_order_lookup(mode, &b, id, off, len))
+        }
         ["chk_cancel", b] => {
             let b = unhex_bytes(b);
             guard_chk(|| chk_cancel(&b))
